@@ -18,6 +18,11 @@ def setup_repo_path():
     sys.dont_write_bytecode = True
 
 
+class RunTimeout(BaseException):
+    """the harness's own wall-clock guard (SIGALRM) fired.  Derived from BaseException so that no catch-all of the tool
+    under test swallows it, and re-raised by every capture site of the rigs: it is never the tool's exception."""
+
+
 class HarnessError(Exception):
     pass
 
@@ -302,7 +307,7 @@ def run_main(argv, data, chunks, script=('quit',), on_read=None, interrupt_at=No
         except SystemExit as e:
             res.exit_code = e.code if e.code is not None else 0
             rec.add('exit', res.exit_code)
-        except (HarnessError, SimDeadlock):
+        except (HarnessError, SimDeadlock, RunTimeout):
             raise
         except RuntimeError as e:
             # what __main__ does: logging.error(e); exit(1)
@@ -398,7 +403,7 @@ def run_component(steps, filter_text=None, break_text=None, show_unprocessed=Tru
         for c in post_cmds:
             rec.add('cmd', c)
             ctl.process_command(c)
-    except (HarnessError, SimDeadlock):
+    except (HarnessError, SimDeadlock, RunTimeout):
         raise
     except BaseException as e:  # noqa
         import traceback
